@@ -13,3 +13,4 @@ open PgmVerif
 #print axioms PgmVerif.C15_cpd_bookkeeping
 #print axioms PgmVerif.C15_remove_forgets
 #print axioms PgmVerif.C15_do_parentless
+#print axioms PgmVerif.C15_reachable_consistent
